@@ -15,6 +15,10 @@ class Boom(Exception):
     pass
 
 
+class Halt(StopIteration):
+    """A task failing with a StopIteration: the stdlib's list(map(func, chunk)) takes it for the end of the chunk."""
+
+
 def task_sets(tier):
     """(n tasks, workers, raising positions). Kept small: the number of model schedules grows factorially with
     the number of free switch points (chunks x interchangeable workers)."""
@@ -29,11 +33,14 @@ def task_sets(tier):
             raising += [tuple(range(n))]
         for r in raising:
             yield n, w, r
+        # the same positions failing with a StopIteration subclass (negative position p stands for "task -p-1 raises Halt")
+        for r in ([(-1,)] if n >= 1 else []) + ([(-n,), (-1, -n)] if n >= 2 else []) + ([(0, -2)] if n >= 2 else []):
+            yield n, w, r
 
 
 def _run(pool_factory, n, w, raising, in_model=False):
     ran = []
-    excs = {i: Boom(i) for i in raising}
+    excs = {(i if i >= 0 else -i - 1): (Boom(i) if i >= 0 else Halt(i)) for i in raising}
 
     def f(i):
         ran.append(i)
